@@ -55,8 +55,21 @@ def pickle_case(ctx, n, order, tts, kind, receiver, levels):
             return
         Mgr(ctx, None, n, other, m=1, session=s, aged=raged, keep_order=True)
         m = 1
+    # a third of the loads with dynamic reordering ENABLED in the receiver, the threshold
+    # already reached: the loader serves no request and leaves the threshold alone
+    dyn = rng.random() < 0.34
+    if dyn:
+        s.op(m, 'configure', True)
+        s.op(m, 'set_last_len', 1)
     r = s.op(m, 'load', 1, levels)
     res = s.last_result()
+    if dyn:
+        ctx.count('pickle:dynamic-receiver')
+        if s.impl.mgr[m]._last_len != 1:
+            ctx.violation('C12:threshold-changed',
+                          f'the reordering threshold is {s.impl.mgr[m]._last_len} after load, was 1',
+                          lambda: dict(stream=s.label, lines=list(s.lines)))
+        s.op(m, 'configure', False)
     case = lambda: dict(stream=s.label, lines=list(s.lines))  # noqa: E731
     ctx.case((n, tuple(order), tuple(tts), kind, receiver, levels), any(t not in (0, T.full(n)) for t in tts))
     ctx.count(f'pickle:{receiver}:{levels}')
@@ -80,16 +93,12 @@ def pickle_case(ctx, n, order, tts, kind, receiver, levels):
             else:
                 for u, t in zip(got, tts):
                     if abs(u) not in b._succ or by_name(b, u, n) != t:
-                        key = ('C12:levels-false-order-differs' if not levels
-                               else 'C12:pickle-wrong-function')
-                        ctx.violation(key, f'loaded root {u} does not denote the dumped function {t:#x} '
+                        ctx.violation('C12:pickle-wrong-function', f'loaded root {u} does not denote the dumped function {t:#x} '
                                            f'(receiver {receiver}, levels={levels})', case)
                         break
         bad = oracle.check_table(b)
         if bad:
-            key = ('C12:levels-false-order-differs' if not levels
-                   else 'C12:receiver-not-canonical')
-            ctx.violation(key, f'receiver not canonical after load: {bad[:2]}', case)
+            ctx.violation('C12:receiver-not-canonical', f'receiver not canonical after load: {bad[:2]}', case)
     for u in refs:
         s.op(0, 'decref', u)
 
